@@ -337,7 +337,7 @@ theorem all_succ (reg : Registry) (root : Json) (fuel : Nat) (ih : R.All reg roo
       · rw [he]; exact R.throwRL _ _ hk
     · rel_auto R ih
   · intro d h
-    simp only [Hbs.callHelper, RM.bind_def, RM.pure_def, withStrict_strict, doEscape_withStrict, Bool.true_and, Bool.false_and, Bool.false_eq_true, ↓reduceIte]
+    simp only [Hbs.callHelper, RM.bind_def, RM.pure_def, withStrict_strict, withStrict_templates, doEscape_withStrict, Bool.true_and, Bool.false_and, Bool.false_eq_true, ↓reduceIte]
     split
     · rcases callInner_cases reg d h with heq | ⟨e, he, hne⟩
       · rw [← heq]; rel_auto R ih
